@@ -97,7 +97,7 @@ TBase(a) == TMul(TQ(a.v), TFac(a.ex))
 -----------------------------------------------------------------------------
 \* the ideal
 BinOps == {"add", "sub", "mul", "div"}
-PowForms == {"int", "pair", "float", "fraction", "np.power", "np.sqrt", "np.cbrt"}
+PowForms == {"int", "pair", "float", "fraction", "np.float64", "np.float32", "np.int64", "np.power", "np.sqrt", "np.cbrt"}
 
 \* inputs on which the statement says nothing (division by zero, 0**negative, root of a negative)
 Unspecified(op, a, b, n) ==
@@ -142,7 +142,7 @@ ResBaseQ(op, a, b, n) ==
 \* transcription of the exponent scaling of the code (Fraction.__mul__/__truediv__).  fx = the named deviations that
 \* have been repaired in the tree (status "fixed" in known_findings): a repaired deviation is transcribed as the ideal.
 TruncQ(x) == IF x[1] >= 0 THEN x[1] \div x[2] ELSE -((-x[1]) \div x[2])
-FloatForm(form, n) == form = "float" \/ (form = "np.power" /\ ~RIsInt(n))
+FloatForm(form, n) == form \in {"float", "np.float64", "np.float32"} \/ (form = "np.power" /\ ~RIsInt(n))
 MachScaleE(e, n, form, fx) ==
   IF FloatForm(form, n) /\ "float_exponent_truncated" \notin fx
   THEN R(TruncQ(RMul(RInt(e[1]), n)), e[2])                         \* before 3073bfc: Fraction(int(num*float), den)
